@@ -197,7 +197,7 @@ Fixpoint srun (l : list (list K * V)) (ops : list (top K V)) : list (option (tou
   end.
 
 Lemma tstep_fork t inner :
-  tstep keq klt t (Fork inner) = (t, ForkBegin :: trun keq klt (copy keq klt t) inner ++ [ForkEnd]).
+  tstep keq klt t (Fork inner) = (t, @ForkBegin V :: trun keq klt (copy keq klt t) inner ++ [ForkEnd]).
 Proof.
   unfold tstep; cbn [tstep_rec]. do 3 f_equal. generalize (copy keq klt t).
   induction inner as [|o r IH]; intros c; cbn [trun]; [reflexivity|].
@@ -207,7 +207,7 @@ Qed.
 Lemma sstep_fork l inner :
   sstep l (Fork inner) = (l, Some ForkBegin :: srun l inner ++ [Some ForkEnd]).
 Proof.
-  unfold sstep; cbn [sstep_rec]. do 3 f_equal. generalize l at 2 4.
+  unfold sstep; cbn [sstep_rec]. do 3 f_equal. generalize l.
   induction inner as [|o r IH]; intros c; cbn [srun]; [reflexivity|].
   unfold sstep at 1. destruct (sstep_rec o c) as [c' out]. rewrite IH. reflexivity.
 Qed.
@@ -322,7 +322,7 @@ Lemma TR_reachable ops t l : TR t l ->
 Proof. revert t l; induction ops as [|o ops IH]; intros t l H; cbn; [exact H|]. apply IH. apply tstep_refines; exact H. Qed.
 
 (* ---- forks are isolated ---- *)
-Lemma trun_app t ops1 ops2 :
+Lemma trun_app (t : trie) (ops1 ops2 : list (top K V)) :
   trun keq klt t (ops1 ++ ops2) =
   trun keq klt t ops1 ++ trun keq klt (fold_left (fun t o => fst (tstep keq klt t o)) ops1 t) ops2.
 Proof.
@@ -330,7 +330,7 @@ Proof.
   destruct (tstep keq klt t o) as [t' out]; cbn [fst]. rewrite IH, app_assoc. reflexivity.
 Qed.
 
-Lemma fork_keeps_state t inner : fst (tstep keq klt t (Fork inner)) = t.
+Lemma fork_keeps_state (t : trie) (inner : list (top K V)) : fst (tstep keq klt t (Fork inner)) = t.
 Proof. rewrite tstep_fork. reflexivity. Qed.
 
 (* one fork: whatever the inner history does to the copy (Puts over keys of the original, new
@@ -338,7 +338,7 @@ Proof. rewrite tstep_fork. reflexivity. Qed.
    the fork itself answers as the association list of the original at that moment *)
 Theorem fork_isolation : forall h inner cont,
   trun keq klt empty (h ++ Fork inner :: cont) =
-    trun keq klt empty h ++ (ForkBegin :: trun keq klt (copy keq klt (state_after h)) inner ++ [ForkEnd])
+    trun keq klt empty h ++ (@ForkBegin V :: trun keq klt (copy keq klt (state_after h)) inner ++ [ForkEnd])
     ++ trun keq klt (state_after h) cont
   /\ trun keq klt empty (h ++ cont) = trun keq klt empty h ++ trun keq klt (state_after h) cont
   /\ map obs (trun keq klt (copy keq klt (state_after h)) inner) = srun (spec_after h) inner.
@@ -348,13 +348,12 @@ Proof.
   - apply trie_refines_assoc_list. apply TR_copy. apply TR_reachable, TR_init.
 Qed.
 
-Lemma state_erase_forks ops t :
+Lemma state_erase_forks (ops : list (top K V)) (t : trie) :
   fold_left (fun t o => fst (tstep keq klt t o)) (erase_forks ops) t = fold_left (fun t o => fst (tstep keq klt t o)) ops t.
 Proof.
   revert t. induction ops as [|o r IH]; intros t; [reflexivity|].
   unfold erase_forks in *. cbn [filter fold_left].
-  destruct o as [ks v|ks|q|ks v|inner]; cbn [is_fork negb fold_left]; try apply IH.
-  rewrite fork_keeps_state. apply IH.
+  destruct o as [ks v|ks|q|ks v|inner]; cbn [is_fork negb fold_left]; apply IH.
 Qed.
 
 Definition balanced_at (o : top K V) : Prop :=
@@ -381,7 +380,7 @@ Qed.
 
 (* any number of forks, nested to any depth, anywhere in the history: the outputs outside the forks
    are exactly the outputs of the history with the forks erased *)
-Theorem forks_invisible : forall ops t,
+Theorem forks_invisible : forall (ops : list (top K V)) (t : trie),
   strip_forks 0 (trun keq klt t ops) = trun keq klt t (erase_forks ops).
 Proof.
   induction ops as [|o r IH]; intros t; [reflexivity|].
@@ -409,7 +408,6 @@ Proof.
     destruct (eql keq ks2 ks) eqn:E2; [|exact H].
     rewrite (slookup_congr l ks2 ks E2) in E. congruence.
   - discriminate Ho.
-  - rewrite sstep_fork. exact H.
 Qed.
 
 (* C20, first half: a declaration whose pattern coincides (token-wise, by keq) with one that was
